@@ -738,12 +738,14 @@ impl<'a> CompiledPredicate<'a> {
         if !(1..=days_in_month).contains(&day) {
             return None;
         }
-        let a = (14 - month as i32) / 12;
-        let y = year + 4800 - a;
-        let m = month as i32 + 12 * a - 3;
-        let jdn = day as i32 + (153 * m + 2) / 5 + 365 * y + y / 4 - y / 100 + y / 400 - 32045;
+        // in i64: a five-digit year and beyond overflows these terms in i32
+        let a = (14 - month as i64) / 12;
+        let y = year as i64 + 4800 - a;
+        let m = month as i64 + 12 * a - 3;
+        let jdn = day as i64 + (153 * m + 2) / 5 + 365 * y + y / 4 - y / 100 + y / 400 - 32045;
         let days = jdn - 2440588;
-        Some(Value::Int(days as i64))
+        // a DATE is a 32-bit day number
+        i32::try_from(days).ok().map(|d| Value::Int(d as i64))
     }
 
     fn parse_time(&self, s: &str) -> Option<Value<'a>> {
@@ -801,7 +803,9 @@ impl<'a> CompiledPredicate<'a> {
         } else {
             0
         };
-        let micros = days * 86400 * 1_000_000 + time_micros;
+        let micros = days
+            .checked_mul(86400 * 1_000_000)?
+            .checked_add(time_micros)?;
         Some(Value::TimestampTz {
             micros,
             offset_secs: 0,
